@@ -235,6 +235,7 @@ def run_case(case, res):
                         if not isinstance(got, str):
                             bad.append(f"format({sname},{rk},{join!r}) raised {got!r}")
                             continue
+                        res.observe("rendered_texts", got)
                         got_lines = got.split(join) if (got or exp_lines) else []
                         if got == "" and not exp_lines:
                             got_lines = []
